@@ -190,6 +190,10 @@ def demo_inputs(rng, tier):
     valid = [gens.cycle(3, 15), gens.reweight(rng, gens.complete(4), [1, 2, 3, 4, 5, 6]), gens.reweight(rng, gens.petersen(), [1, 2, 3]),
              gens.reweight(rng, gens.grid(3, 3), [1, 2]), gens.union(gens.cycle(4, 2), gens.cycle(3, 7)), {'n': 4, 'edges': [(0, 1, 3), (1, 2, 4)]},
              gens.reweight(rng, gens.wheel(6), [2, 3, 5]), gens.petals(4, 50, 2, 1)]
+    # disconnected graphs with fewer edges than vertices that still contain cycles, isolated vertices, many components
+    valid += [gens.union(gens.with_tree_components(rng, gens.cycle(3, 3), 2), {'n': 1, 'edges': []}),
+              gens.union(gens.union(gens.cycle(3, 2), gens.cycle(3, 1)), {'n': 3, 'edges': []}),
+              gens.with_tree_components(rng, gens.cycle(4, 2), 4)]
     valid += gens.random_graphs(rng, 4 if tier == 'quick' else 40, 5, 9, 14, [[1, 2, 3], list(range(1, 30))])
     base = gens.reweight(rng, gens.complete(4), [1, 2, 3])
     invalid = []
